@@ -607,6 +607,40 @@ func TestC09Range(t *testing.T) {
 			t.Fatalf("%s", msg)
 		}
 
+		// The same filter and rules once more without the ID list (what a
+		// caller does who first shows a selection and then everything): all
+		// the resources the filter allows, whatever was asked before.
+		if len(ids) > 0 && tree != nil {
+			var all jsonapi.Collection
+
+			if p := oracle.Try(func() {
+				all = jsonapi.Range(buildCollection(impl, &ts, items), nil, argFilter, argRules, uint(len(items)+1), 0)
+			}); p != nil {
+				t.Fatalf("C09 violated: Range %s (same filter, no ID list)\ncase: %s", p, desc)
+			}
+
+			want := []string{}
+
+			for _, it := range items {
+				vals := map[string]any{"id": it.id}
+				for k, v := range it.vals {
+					vals[k] = v
+				}
+
+				if oracle.EvalFilter(tree, &ts, vals) {
+					want = append(want, it.id)
+				}
+			}
+
+			got := idsOf(all)
+			sort.Strings(got)
+			sort.Strings(want)
+
+			if !reflect.DeepEqual(got, want) {
+				t.Fatalf("C09 violated: the same filter without the ID list gives %q, the filter allows %q\ncase: %s", got, want, desc)
+			}
+		}
+
 		nonID := 0
 		tie := false
 
